@@ -113,19 +113,33 @@ func (s *Modifier) ModifyResponse(res *http.Response) error {
 	contentType := mime.TypeByExtension(filepath.Ext(fpth))
 	res.Header.Set("Content-Type", contentType)
 
-	// If no range request header is present, return the file as the response body.
-	if res.Request.Header.Get("Range") == "" {
+	// If no range request header is present, or its unit is not bytes (RFC 7233
+	// says to ignore range units that are not understood), return the file as
+	// the response body.
+	rh := strings.ToLower(res.Request.Header.Get("Range"))
+	if !strings.HasPrefix(rh, "bytes=") {
 		res.ContentLength = info.Size()
 		res.Body = f
 
 		return nil
 	}
 
-	rh := res.Request.Header.Get("Range")
-	rh = strings.ToLower(rh)
-	sranges := strings.Split(strings.TrimLeft(rh, "bytes="), ",")
+	sranges := strings.Split(strings.TrimPrefix(rh, "bytes="), ",")
 	var ranges [][]int
 	for _, rng := range sranges {
+		rng = strings.TrimSpace(rng)
+		if strings.HasPrefix(rng, "-") {
+			// Suffix range: the last n bytes.
+			n, err := strconv.ParseInt(strings.TrimSpace(rng[1:]), 10, 64)
+			if err != nil || n <= 0 {
+				res.StatusCode = http.StatusRequestedRangeNotSatisfiable
+				return nil
+			}
+			if n > info.Size() {
+				n = info.Size()
+			}
+			rng = fmt.Sprintf("%d-%d", info.Size()-n, info.Size()-1)
+		}
 		if strings.HasSuffix(rng, "-") {
 			rng = fmt.Sprintf("%s%d", rng, info.Size()-1)
 		}
@@ -135,14 +149,17 @@ func (s *Modifier) ModifyResponse(res *http.Response) error {
 			res.StatusCode = http.StatusRequestedRangeNotSatisfiable
 			return nil
 		}
+		// A position that is not a number makes the range set invalid.
 		start, err := strconv.Atoi(strings.TrimSpace(rs[0]))
 		if err != nil {
-			return err
+			res.StatusCode = http.StatusRequestedRangeNotSatisfiable
+			return nil
 		}
 
 		end, err := strconv.Atoi(strings.TrimSpace(rs[1]))
 		if err != nil {
-			return err
+			res.StatusCode = http.StatusRequestedRangeNotSatisfiable
+			return nil
 		}
 
 		if start > end || start < 0 || int64(start) >= info.Size() {
